@@ -6,7 +6,7 @@ from .. import core, pscommon as pc
 LEVEL = "exploration"
 ENGINE = "progspace"
 TECHNIQUE = "bounded exhaustive exploration: every node binary of the program space x input form (ELF/ELF, ABIXML/ABIXML, ELF/ABIXML, ABIXML/ELF) x reporting option set (complete cross)"
-RULE = ("node binaries = packs of all units of the node set (C05) and the seed programs (C, C++ with bases/virtuals/templates, aliases, versioned symbols, two TUs with same-named structs), "
+RULE = ("node binaries = packs of all units of the node set (C05) and the seed programs (C, C++ with bases/virtuals/templates, aliases, versioned symbols, two TUs with same-named structs) plus libraries of 2-3 translation units that each define `enum E` differently (6 definitions with duplicated enumerator values, plus the pair {a=0,b=1,c=1} / {a=0}; every ordered pair, and every ordered triple in the thorough tier), "
         "compiled by gcc and clang (DWARF default; 4 and 5 in the thorough tier) and without -g; each is compared with itself in four input forms under the option sets "
         "{default, --leaf-changes-only, --harmless, --redundant, --non-reachable-types, --no-show-locs, --stat}. Oracle: exit status 0 and empty stdout. Non-trivial: every (binary, form, options) run.")
 TEXT = "Complete cross of node binaries, input forms and option sets; the oracle is exact (nothing may be printed)."
@@ -19,13 +19,31 @@ def prepare(ctx):
     toolrun.tool("plain", "abidiff")
 
 
+# same-named enums defined differently in several translation units, with duplicated enumerator values (enum equality tolerates
+# enumerators whose value is redundant; canonicalisation of the second copy of the binary must still land on the same types)
+ENUM_DEFS = {"a1": "a = 1", "a1b1": "a = 1, b = 1", "a2b2": "a = 2, b = 2", "a0b1c1": "a = 0, b = 1, c = 1", "a1b2": "a = 1, b = 2", "a1b1c2": "a = 1, b = 1, c = 2",
+             "a0": "a = 0"}     # a0 is only paired with a0b1c1 (the one asymmetric case of the current enum equality, see known findings)
+
+
 def stages(ctx):
-    return [("all-node-binaries", [{"bin": b} for b in pc.node_binary_specs(ctx.quick)])]
+    import itertools
+    keys = sorted(k for k in ENUM_DEFS if k != "a0")
+    multi = [{"enums": list(c)} for r in ((2, 3) if not ctx.quick else (2,)) for c in itertools.permutations(keys, r)]
+    if ctx.quick:
+        multi += [{"enums": list(c)} for c in itertools.permutations(["a1", "a1b1", "a2b2"], 3)]
+    multi += [{"enums": ["a0b1c1", "a0"]}, {"enums": ["a0", "a0b1c1"]}]
+    return [("all-node-binaries", [{"bin": b} for b in pc.node_binary_specs(ctx.quick)] + multi)]
 
 
 def evaluate(ctx, e):
-    b = e["bin"]
-    path = pc.node_binary(b)
+    if "enums" in e:
+        from .. import cbuild
+        units = [("e%d.c" % i, "enum E { %s };\nint g%d(enum E x) { return (int)x; }\n" % (ENUM_DEFS[k], i), ["-g"]) for i, k in enumerate(e["enums"])]
+        path = cbuild.compile_units(units, link_flags=["-Wl,-soname,libenum.so"], out_name="libenum.so", tag="c01e")
+        b = {"id": "same-named-enums-" + "+".join(e["enums"]), "seed": "enums-" + "+".join(e["enums"])}
+    else:
+        b = e["bin"]
+        path = pc.node_binary(b)
     d = ctx.tmpdir("c01")
     abi = os.path.join(d, "x.abi")
     rc, out, err = pc.run(ctx, "abidw", [path])
